@@ -2206,6 +2206,10 @@ impl<'a> Gen<'a> {
             }
             reachable.sort();
             reachable.dedup();
+            // the stage properties of a pipeline block come in any order
+            if self.pick(2) == 0 {
+                stages.reverse();
+            }
             let idx = self.prog.pipelines.len();
             self.prog.pipelines.push(Pipeline { name: pname, stages: stages.clone(), default_group, extra: String::new() });
             // a pipeline may be declared inside a namespace: it is still requested by its plain name
